@@ -117,13 +117,19 @@ def main(seed, ncases, driver, out):
                         g = [a for a in range(d) if P["blocks"][a] == b and E[a] == e]
                         if len(g) >= 2:
                             z = rng.normal(size=(len(g), len(g))) + (1j * rng.normal(size=(len(g), len(g))) if cplx else 0); q, _ = np.linalg.qr(z); R[np.ix_(g, g)] = q
-                Q["terms"] = {n: R.conj().T @ m @ R for n, m in P["terms"].items()}; Q["terms"][(0,) * k] = P["terms"][(0,) * k]
+                if rnd.random() < 0.5 and not exact:
+                    # the same rotation presented through eigenvector matrices of a dense, rotated H_0: the level is degenerate only up to rounding
+                    z = rng.normal(size=(d, d)) + (1j * rng.normal(size=(d, d)) if cplx else 0); Qf, _ = np.linalg.qr(z); Wf = Qf @ R
+                    Q["terms"] = {n: Qf @ m @ Qf.conj().T for n, m in P["terms"].items()}
+                    vectors = [Wf[:, [a for a in range(d) if P["blocks"][a] == b]] for b in range(N)]; carrier = "dense"
+                else:
+                    Q["terms"] = {n: R.conj().T @ m @ R for n, m in P["terms"].items()}; Q["terms"][(0,) * k] = P["terms"][(0,) * k]
                 rel = lambda base, name, n: R.conj().T @ base[(name, n)] @ R
             elif tr == "conjugate":
                 Q["terms"] = {n: m.conj() for n, m in P["terms"].items()}
                 rel = lambda base, name, n: base[(name, n)].conj()
             elif tr == "shift":
-                cshift = rnd.choice([1.0, -2.5, 7.0, 0.125]); z = (0,) * k
+                cshift = rnd.choice([1.0, -2.5, 7.0, 0.125, float(2 ** 17), float(2 ** 18)]); z = (0,) * k      # large shifts: level spacings far below 1e-5 of the level values
                 Q["terms"] = dict(P["terms"]); Q["terms"][z] = P["terms"][z] + cshift * np.eye(d)
                 if np.abs(np.diag(Q["terms"][z])).max() == 0: Q["terms"][z] = Q["terms"][z] + np.eye(d); cshift += 1
                 rel = lambda base, name, n: base[(name, n)] + (cshift * np.eye(d) if name == "H_tilde" and not any(n) else 0)
